@@ -10,7 +10,7 @@ import impl
 import metam
 import popgen
 
-PRELUDE = "From GettsimModel Require Import Dag TimeConv Levels Corr.\nFrom GettsimGen Require Import GenDag GenConfig.\n"
+PRELUDE = "From GettsimModel Require Import Dag TimeConv Levels Corr TableConst.\nFrom GettsimGen Require Import GenRules GenDag GenConfig.\n"
 GROUPS = ["hh", "wthh", "fg", "bg", "eg", "ehe", "sn"]
 
 
@@ -41,6 +41,20 @@ def obligations():
                  "aggregates over a coarser-or-equal group, documented *_hh inputs), except downstream of the listed known (node, argument) pairs" % i,
             diag=f'String.concat ";" (flat_map (fun od => map (fun p => show_z (fst od) ++ ":" ++ fst p ++ "<-" ++ snd p) '
                  f'(filter (fun p => negb (pair_mem p {known})) (root_offenders (level_offenders dag_data_cols (subgraph (snd od) default_targets))))) {sel})'))
+    for i in range(4):
+        sel = f"(filter (fun od => Z.leb 735599 (fst od) && Z.eqb (Z.modulo (fst od) 4) {i}) dags)"
+        obls.append(dict(
+            name=f"c15_verified_dataflow_{i}",
+            stmt=f"forallb (fun od => let S := subgraph (snd od) default_targets in v_levels_ok_except {known} all_fundefs dag_data_cols S && "
+                 f"forallb (fun g => fresh_names_b (known0_of g dag_data_cols) [] (non_grouping S)) groups) {sel} = true",
+            proof="vm_cast_no_check (@eq_refl bool true).",
+            what="on every dumped graph from 2015-01-01 on (shard %d of 4): the VERIFIED dataflow (TableConst.const_nodes, sound for the concrete engine by "
+                 "const_nodes_sound: rules with declared dtype and rounding / unit conversions with all arguments constant on the group, group reductions "
+                 "whose id column is constant on the group; inputs of the level and id columns of coarser levels assumed constant) proves every node "
+                 "whose name carries a group suffix constant on that group, except downstream of the listed known (node, argument) pairs; and the "
+                 "freshness premise of the theorem holds for every level" % i,
+            diag=f'String.concat ";" (flat_map (fun od => map (fun p => show_z (fst od) ++ ":" ++ fst p ++ "<-" ++ snd p) '
+                 f'(filter (fun p => negb (pair_mem p {known})) (root_offenders (v_offenders all_fundefs dag_data_cols (subgraph (snd od) default_targets))))) {sel})'))
     return obls
 
 
